@@ -9,6 +9,90 @@ import (
 func init() {
 	cmds["c06r"] = cmdC06Reader
 	cmds["c07r"] = cmdC07Reader
+	cmds["c06d"] = cmdC06Dialect
+}
+
+type signDlVec struct {
+	Kind  string `json:"kind"`
+	D     int    `json:"d"`
+	Ti    int    `json:"ti"`
+	Key   B      `json:"key"`
+	Bytes B      `json:"bytes"`
+}
+
+// cmdC06Dialect: a reader with an incoming key AND a dialect. Spec-signed frames of dialect messages (canonical,
+// with trailing zeros kept, with bytes beyond the known fields), of an id the dialect lacks, and frames lengthened
+// after signing. -aux c06: every vector alone and forgeries; -aux c07: window histories mixing known and unknown ids.
+func cmdC06Dialect(o opts) {
+	rec := newRec(o.out)
+	r := rand.New(rand.NewSource(o.seed))
+	thorough := o.tier == "thorough"
+	em := &streamEmitter{rec: rec}
+	var vecs []signDlVec
+	readVectors(o.vectors, &vecs)
+	protos := allProtos()
+	ix := defIndex(protos)
+	all := findDialect("allplus")
+	cfg := streamCfg{drw: mustRW(all), dl: dialectIndices(all, ix), key: frame.NewV2Key(vecs[0].Key)}
+	cat := func(bs ...[]byte) []byte {
+		var out []byte
+		for _, b := range bs {
+			out = append(out, b...)
+		}
+		return out
+	}
+	if o.aux != "c07" {
+		var firstCanon []byte
+		for _, v := range vecs {
+			forged := v.Kind == "forged_pad" || v.Kind == "forged_ext"
+			if v.Kind == "canon" && firstCanon == nil {
+				firstCanon = v.Bytes
+			}
+			em.incomplete = forged
+			g := em.group()
+			em.put(g, v.Bytes, -1, "eof", nil, false, cfg, false, "kd_"+v.Kind)
+			em.put(g, v.Bytes, -1, "eof", []int{1}, false, cfg, false, "kd_"+v.Kind)
+			if forged && firstCanon != nil {
+				em.put(em.group(), cat(firstCanon, v.Bytes, firstCanon), -1, "eof", []int{5}, false, cfg, false, "kd_"+v.Kind+"_between")
+			}
+		}
+		rec.Close()
+		return
+	}
+	// window histories: symbols = (canon of the first message | unknown id) x timestamp
+	var syms [][]byte
+	d0 := 0
+	for _, v := range vecs {
+		if v.Kind == "canon" && d0 == 0 {
+			d0 = v.D
+		}
+	}
+	for _, v := range vecs {
+		if (v.Kind == "canon" && v.D == d0) || v.Kind == "unknown" {
+			syms = append(syms, v.Bytes)
+		}
+	}
+	em.incomplete = false
+	for a := range syms {
+		for b := range syms {
+			em.put(em.group(), cat(syms[a], syms[b]), -1, "eof", nil, false, cfg, false, "kd_hist2")
+		}
+	}
+	n3 := 150
+	if thorough {
+		n3 = 1000
+	}
+	for i := 0; i < n3; i++ {
+		a, b, c := r.Intn(len(syms)), r.Intn(len(syms)), r.Intn(len(syms))
+		if thorough {
+			a, b, c = i/100, (i/10)%10, i%10
+			if a >= len(syms) || b >= len(syms) || c >= len(syms) {
+				continue
+			}
+		}
+		em.put(em.group(), cat(syms[a], syms[b], syms[c]), -1, "eof", []int{1 + r.Intn(40)}, false, cfg, false, "kd_hist3")
+	}
+	rec.Close()
 }
 
 type signVec struct {
